@@ -24,6 +24,7 @@ class _Handle(object):
 def build(rr):
     """rr: {'kind': 'smtp'|'lmtp', 'scripts': [per-connection script...], 'pipelining': bool, 'idle': n|None, 'pool_size': n|None}
            {'kind': 'pipe', 'behaviour': {rcpt position: 'ok'|'T'|'P'|'stall'}, 'timeout': n}
+           {'kind': 'http', 'actions': [one hdrv.ACTIONS name per request], 'idle': n|None}
     returns (relay, handle with close(), attempts block in real time?, stall marker path or None)"""
     kind = rr['kind']
     if kind in ('smtp', 'lmtp'):
@@ -57,4 +58,13 @@ def build(rr):
             gevent.sleep(0)
             shutil.rmtree(d, ignore_errors=True)
         return relay, _Handle(closer), True, marker
+    if kind == 'http':
+        from . import hdrv
+        run = hdrv.HttpRun(rr['actions'], idle_timeout=rr.get('idle'))
+
+        def closer():
+            for c in list(run.relay.pool):
+                c.kill(block=False)
+            run.server.stop(timeout=0.1)
+        return run.relay, _Handle(closer), True, None
     raise ValueError(kind)
